@@ -79,7 +79,8 @@ def rule_n(ctx):
     fns = [f for f in F.all_fns() if f["d"]["krate"] == "linfa_reduction" and (f["d"].get("self_adt") or "").endswith("Pca") and f["d"]["name"].startswith("explained_variance")]
     if len(fns) < 2:
         res.missing_anchor("Pca::explained_variance / explained_variance_ratio")
-    for fn in fns:
+    bad_divisor_fns = {}
+    for fn in sorted(fns, key=lambda f: f["d"]["name"].endswith("_ratio")):
         c = fn["crate"]
         r = Render(c)
         key = fn_key(fn)
@@ -95,7 +96,10 @@ def rule_n(ctx):
             rv = as_term(tr.result)
             inst = "%s : sigma^2 / sum(sigma^2)" % key
             res.instance(inst)
-            if rv is not None and rv.op == "bin:/" and as_term(rv.args[1]) is not None and as_term(rv.args[1]).is_call("sum") and k(as_term(rv.args[1]).args[0]) == k(rv.args[0]):
+            inherited = [nm for nm in bad_divisor_fns if rv is not None and ("call:%s(" % nm) in k(rv)]
+            if inherited:
+                res.violate("%s : variance-divisor-inherited" % key, "the ratio is computed from `%s()`, whose divisor (%s) vanishes for a single component: the ratio is then inf/inf = NaN instead of 1" % (inherited[0], bad_divisor_fns[inherited[0]]), fn_loc(fn))
+            elif rv is not None and rv.op == "bin:/" and as_term(rv.args[1]) is not None and as_term(rv.args[1]).is_call("sum") and k(as_term(rv.args[1]).args[0]) == k(rv.args[0]):
                 res.ok()
                 res.sample({"site": inst, "form": "normalised by its own sum (any common divisor cancels)"})
             else:
@@ -121,6 +125,7 @@ def rule_n(ctx):
                 res.ok()
                 res.sample({"site": inst, "sample_count_field": sorted(fields & count_fields)})
             else:
+                bad_divisor_fns[fn["d"]["name"]] = r.e(d)[:40]
                 res.violate("%s : variance-divisor" % key,
                             "explained variance divides sigma^2 by `%s`, which depends on %s and on no recorded training sample count: the property requires sigma^2/(n-1)" % (
                                 r.e(d)[:60], ("the length of `%s` (the number of components)" % ",".join(sorted(lens))) if lens else "fields %s" % sorted(fields)), fn_loc(fn, n["ln"]))
